@@ -81,7 +81,11 @@ class C16(Prop):
             {"rel": "f1.csv", "blocks": [t(1), {"k": "include", "lines": ["a/f2.csv", "c/g.csv", "a/../c/g.csv"]}]},
             {"rel": "a/f2.csv", "blocks": [t(2), {"k": "include", "lines": ["../c/g.csv"]}]},
             {"rel": "c/g.csv", "blocks": [t(3)]}]}
-        for tree, first in ((cyc, "a/f1.csv"), (dia, "f1.csv")):
+        # the same specification twice in one include directive
+        rep = {"folders": ["", "a", "c"], "links": [], "files": [
+            {"rel": "f1.csv", "blocks": [t(1), {"k": "include", "lines": ["c/g.csv", "a/f2.csv", "c/g.csv"]}]},
+            {"rel": "a/f2.csv", "blocks": [t(2)]}, {"rel": "c/g.csv", "blocks": [t(3)]}]}
+        for tree, first in ((cyc, "a/f1.csv"), (dia, "f1.csv"), (rep, "f1.csv")):
             for use_root in (False, True):
                 for raising in (False, True):
                     out.append({"tree": tree, "cfg": {"use_root": use_root, "roots": [("/" if use_root else "ROOT/") + first],
@@ -162,6 +166,7 @@ class C16(Prop):
         pat = re.compile((cfg.get("start_pattern") or r"(?!~\$)") + r".*\.(csv|xlsx)$", re.IGNORECASE)
         stack = [(sp, None) for sp in obs["roots"]]
         visited = set()
+        self._expected_repeats = 0
         while stack:
             spec, src = stack.pop()
             s = spec[5:] if spec.lower().startswith("file:") else spec
@@ -177,6 +182,7 @@ class C16(Prop):
             if cfg["use_root"] and not (p == root or p.startswith(root + os.sep)):
                 return None
             if p in visited:
+                self._expected_repeats += 1
                 continue
             if p in files:
                 visited.add(p)
@@ -228,6 +234,18 @@ class C16(Prop):
         if len(set(opened)) != len(opened):
             dup = next(p for p in opened if opened.count(p) > 1)
             fails.append(f"read-twice: {os.path.relpath(dup, obs['base'])} was opened / listed more than once")
+        # every request for a location that has already been read is reported (collecting tracker), or ends the
+        # load with an InputError (default tracker)
+        if not self.hostile and obs["code"] in (0, 1):
+            want = self.expected_reads(case, obs)
+            if want is not None:
+                rep = self._expected_repeats
+                n_rep = len(self._dup_issues(evs))
+                other_issues = len(obs["issues"]) - n_rep
+                if not cfg["raising"] and obs["code"] == 0 and other_issues == 0 and n_rep != rep:
+                    fails.append(f"repeat-count: {rep} repeated request(s) for a location already read, {n_rep} reported")
+                if cfg["raising"] and rep > 0 and obs["code"] == 0:
+                    fails.append(f"repeat-silent: {rep} repeated request(s) but the load completed without an error")
         # a complete, error-free load reads exactly what is reachable
         if obs["code"] == 0 and not obs["issues"] and not self.hostile:
             want = self.expected_reads(case, obs)
